@@ -20,7 +20,7 @@ def cases(draw):
     d = draw(st.sampled_from(impl.DRAFTS))
     s = draw(GS.root_schemas(d, 8))
     xs = draw(GI.instances_for(s, 3))
-    return {"kind": "plain", "draft": d, "schema": s, "instances": xs, "probes": 24}
+    return {"kind": "plain", "draft": d, "schema": s, "instances": xs, "probes": 24, "alias": draw(st.integers(0, 5)) == 0}
 
 
 def closure(errors):
@@ -186,6 +186,9 @@ class C06(Prop):
         if case.get("kind") == "world":
             return self.check_world(case, res)
         d, s = case["draft"], case["schema"]
+        if case.get("alias"):
+            s = impl.alias_equal(s)
+            res.labels.append("aliased")
         cls = impl.CLS[d]
         if walk.has_ref(d, s):
             res.excluded = "has-ref"
